@@ -18,7 +18,7 @@ RULE = "case = (clause, r / point set, r0, L0, argument class); non-trivial when
 ASSUMPTIONS = ["stf_vonKarman_yao is judged only inside its series' validity r <= 0.1 L",
                "phase_covariance evaluates in single precision (it casts r to float32): tolerance 16 eps32 B(0)"]
 REQUIRED = ["turb.py:phase_covariance", "slopecovariance.py:structure_function_vk", "slopecovariance.py:structure_function_kolmogorov",
-            "karhunenLoeve.py:stf_kolmogorov", "karhunenLoeve.py:stf_vonKarman", "karhunenLoeve.py:stf_vonKarman_yao", "phasescreen.py:ft_phase_screen"]
+            "karhunenLoeve.py:stf_kolmogorov", "karhunenLoeve.py:stf_vonKarman", "karhunenLoeve.py:stf_vonKarman_yao", "karhunenLoeve.py:gkl_kernel", "phasescreen.py:ft_phase_screen"]
 REQUIRED_COUNTERS = ["psd_probes", "hankel_comparisons", "point_sets", "argument_shadow_checks"]
 EPS32 = float(np.finfo(np.float32).eps)
 
@@ -161,6 +161,29 @@ def run(ctx, spec):
         ctx.case("hankel", key=(r, r0, L0), nontrivial=True, sample=w)
         ctx.close("D_vs_hankel_of_psd", D, Dh, 7e-3 * Dh, "structure_function_vk:hankel_of_screen_psd", w, scale=Dh)
         ctx.close("2(B0-B)_vs_hankel_of_psd", 2 * (Bz - Br), Dh, 7e-3 * Dh + 32 * EPS32 * Bz, "phase_covariance:hankel_of_screen_psd", w, scale=Dh)
+
+    # the structure function inside the Karhunen-Loeve kernel (both statistics tags) is the same model: undo the azimuthal
+    # FFT of the kernel and compare with the reference at the chord lengths the kernel is defined on
+    for kk in range(2 if spec["reps"] <= 12 else 10):
+        ri = float(rng.uniform(0.05, 0.7))
+        nr = int(rng.integers(4, 10))
+        outer = float(10 ** rng.uniform(-0.3, 1.5))
+        rad = KL.gkl_radii(ri, nr)
+        nth = 5 * nr
+        fnorm = 0.5 * (-1) / (2 * np.pi * (1 - ri ** 2))
+        ang = np.arange(nth) * 2 * np.pi / nth
+        for tag, refD in (("vk", lambda c: vk.structure_function(c, 1.0, outer)), ("kolmogorov", lambda c: 6.8839 * c ** (5 / 3.))):
+            import warnings
+            with warnings.catch_warnings():
+                warnings.simplefilter("ignore")
+                ker = pure_call(ctx, "gkl_kernel", KL.gkl_kernel, ri, nr, rad, tag, outer if tag == "vk" else None)
+            ctx.case("kl_kernel_content", key=(ri, nr, outer, tag), nontrivial=True, sample={"ri": ri, "nr": nr, "outerscale": outer, "stf": tag})
+            i, j = int(rng.integers(0, nr)), int(rng.integers(0, nr))
+            sf = np.fft.ifft(ker[i, j, :] / (fnorm * 2 * np.pi / nth)).real
+            chord = 0.5 * np.sqrt(np.maximum(rad[i] ** 2 + rad[j] ** 2 - 2 * rad[i] * rad[j] * np.cos(ang), 0))
+            want = refD(chord)
+            ctx.close("kl_kernel_structure_function:" + tag, sf, want, 1e-3 * want + 1e-9 * float(want.max()), "gkl_kernel:structure_function:" + tag,
+                      {"ri": ri, "nr": nr, "outerscale": outer, "i": i, "j": j}, scale=float(want.max()))
 
     # positive semi-definiteness of covariance matrices between arbitrary points
     for s in range(spec["n_sets"]):
